@@ -216,10 +216,13 @@ impl Request {
         if let Some(content_length) = headers.get(&HeaderType::ContentLength) {
             let content_length: usize =
                 content_length.parse().map_err(|_| RequestError::Request)?;
-            let mut content_buf: Vec<u8> = vec![0u8; content_length];
-            reader
-                .read_exact(&mut content_buf)
+            // Grow the buffer as the body arrives rather than trusting the claimed length
+            let mut content_buf: Vec<u8> = Vec::new();
+            let read = (&mut reader)
+                .take(content_length as u64)
+                .read_to_end(&mut content_buf)
                 .map_err(|_| RequestError::Stream)?;
+            safe_assert(read == content_length).map_err(|_| RequestError::Stream)?;
 
             Ok(Self {
                 method,
@@ -314,11 +317,14 @@ impl Request {
         if let Some(content_length) = headers.get(&HeaderType::ContentLength) {
             let content_length: usize =
                 content_length.parse().map_err(|_| RequestError::Request)?;
-            let mut content_buf: Vec<u8> = vec![0u8; content_length];
-            reader
-                .read_exact(&mut content_buf)
+            // Grow the buffer as the body arrives rather than trusting the claimed length
+            let mut content_buf: Vec<u8> = Vec::new();
+            let read = (&mut reader)
+                .take(content_length as u64)
+                .read_to_end(&mut content_buf)
                 .await
                 .map_err(|_| RequestError::Stream)?;
+            safe_assert(read == content_length).map_err(|_| RequestError::Stream)?;
 
             Ok(Self {
                 method,
